@@ -578,7 +578,10 @@ def register(pid, run, **kw):
 
 
 register("C01", run_C01, rule="generated worklist programs (1-8 ops, 1-3 labware); non-trivial = contains an accepted liquid-moving operation; distinct by canonical JSON")
-register("C02", run_C02, rule="add/remove histories and worklist programs with boundary-biased volumes; rejected operations are followed by further operations")
+register("C02", run_C02, module="Robotools.Props.C02",
+         theorems=["Robotools.C02." + t for t in ("addStep_ok_iff", "addStep_vol", "addStep_err", "removeStep_ok_iff", "removeStep_vol",
+                   "removeStep_err", "addStep_valid", "removeStep_valid", "micro_valid", "exec_decompose", "exec_append", "exec_valid",
+                   "compile_nonneg", "step_limits", "world_limits", "mk_valid", "trough_mk_valid")], rule="add/remove histories and worklist programs with boundary-biased volumes; rejected operations are followed by further operations")
 register("C03", run_C03, rule="worklist programs whose last operation is built to fail at a chosen sub-step; records replayed after every operation")
 register("C04", run_C04, rule="direct add/remove histories over plates and troughs with scalar/list/2-D arguments and repeats")
 register("C05", run_C05, rule="transfer/distribute/dispense histories with shared component names; exact amounts ledger")
@@ -1115,7 +1118,10 @@ def run_C15(ctx):
     return res
 
 
-register("C15", run_C15, rule="shapes 1..16 x 1..24, random anchors (incl. non-fitting / unknown), scalar / 1-D / 2-D sub-arrays, seeds 0..200, three randomisation modes")
+register("C15", run_C15, module="Robotools.Props.C15",
+         theorems=["Robotools.C15." + t for t in ("shift_offset", "shift_refused_iff", "unshift_shift", "shift_unshift", "rotate_cw_formula",
+                   "rotate_ccw_formula", "ccw_cw", "cw_ccw", "cw_four", "rotate_total", "mapM_shape", "derandomize_randomize",
+                   "randomize_derandomize", "randomize_injective", "randomize_keeps")], rule="shapes 1..16 x 1..24, random anchors (incl. non-fitting / unknown), scalar / 1-D / 2-D sub-arrays, seeds 0..200, three randomisation modes")
 
 
 # ------------------------------------------------------------------ C17 save
@@ -1201,7 +1207,9 @@ def run_C17(ctx):
     return res
 
 
-register("C17", run_C17, genok=["gen_saveJoiner_ok", "gen_saveOpen_ok"],
+register("C17", run_C17, module="Robotools.Props.C17",
+         theorems=["Robotools.C17." + t for t in ("read_back", "empty_file", "no_trailing_break", "file_is_crlf_join", "latin1_round_trip",
+                   "latin1_rejects", "gwl_suffix_iff", "comment_recs_wf")], genok=["gen_saveJoiner_ok", "gen_saveOpen_ok"],
          rule="record lists of 0..30 records of every type with Latin-1 text, saved through save() and the with-block to str/Path names with and without .gwl, over pre-existing shorter/longer files, repeated saves")
 
 
